@@ -40,3 +40,13 @@ PROPS = {
     "C19": {"level": "exploration", "rule": "renders captured at the pydot seam; node/edge/cluster sets and effective attributes recomputed from the model; heat labels and colours from the solved losses; non-trivial = diagram with >= 2 groups, an override or >= 3 distinct losses",
             "probes": []},
 }
+
+
+# evaluations = the number of judged cases of the property (a measured counter),
+# sessions are reported separately
+CASE_COUNTER = {
+    "C01": "tables_checked", "C02": "tables_checked", "C03": "c03_calls", "C04": "tables_checked",
+    "C05": "tables_checked", "C06": "tables_checked", "C07": "tables_checked", "C08": "rail_rows_checked",
+    "C09": "tables_checked", "C12": "c12_roundtrips", "C14": "edits", "C15": "edit_rej",
+    "C16": "c16_fresh_compares", "C17": "analyses", "C18": "c18_logs_checked", "C19": "c19_renders_checked",
+}
